@@ -110,7 +110,7 @@ def run(tier):
                       {"scenario": {"items": [{"ty": i["ty"], "path": i.get("path"), "nbits": i.get("nbits", 0)} for i in e["items"]],
                                     "note": "values are in the event"},
                        "event": {k: v for k, v in e.items() if k not in ("exposed",)}})
-    if not st["actions"].get("TPub") and not rejected:
+    if not good and not rejected:
         raise vlib.ToolError("vacuity: no exposure validated")
     # binding demonstration: corrupt one limb of a recorded encoder vector -> must be rejected
     demo = next((dict(e) for e in pubs if e["status"] == "sat" and e["encs"] and len(e["items"]) == 1 and e["items"][0]["ty"] == "secp_p"), None)
